@@ -368,6 +368,28 @@ func buildC02(tier string) *core.Plan {
 			}
 		}}
 	spaces := []core.Space{targeting}
+	if !thorough {
+		// quick: a narrow slice with three further layers (2-document bases, one document per layer)
+		b2 := c02Streams(c02BaseDocs[:4], 2)
+		var two [][]any
+		for _, b := range b2 {
+			if len(b) == 2 {
+				two = append(two, b)
+			}
+		}
+		s1, s2, s3 := c02TargetLayers(1, 1), c02TargetLayers(2, 1), c02TargetLayers(3, 1)
+		ns1 := int64(len(s1))
+		spaces = append(spaces, core.Space{Name: "targeting-3-layers-narrow", N: int64(len(two)) * ns1,
+			Desc: func(i int64) any { return map[string]any{"base": two[i/ns1], "layer1": s1[i%ns1], "then": "every 2nd and 3rd single-document layer"} },
+			Run: func(c *core.Ctx, i int64) {
+				base, a := two[i/ns1], s1[i%ns1]
+				for _, b := range s2 {
+					for _, d := range s3 {
+						c02History(c, "refStream", base, [][]c02Doc{a, b, d})
+					}
+				}
+			}})
+	}
 
 	if thorough {
 		// layers of up to 3 documents, up to 2 layers
